@@ -817,6 +817,17 @@ def _native_acc(a, pre):
         samev("replace-tzinfo-utc", lambda v: v.replace(tzinfo=utc))
         samev("replace-tzinfo-fixed", lambda v: v.replace(hour=3, tzinfo=plus))
         samev("cls-fromisoformat", lambda v: type(v).fromisoformat(x.isoformat()))
+    # the str() / format() protocols: as the native object; a pendulum format spec goes to format(), for_json is isoformat
+    same("str()", lambda v: str(v))
+    same("format-empty", lambda v: format(v, ""))
+    same("format-percent", lambda v: format(v, "%H:%M:%S" if isinstance(v, _dt.time) else "%Y-%m-%d %j"))
+    try:
+        if not isinstance(x, _dt.time) and format(x, "YYYY-MM-DD") != x.format("YYYY-MM-DD"):
+            xneq.append("format-spec")
+        if x.for_json() != x.isoformat():
+            xneq.append("for_json")
+    except Exception as e:  # noqa: BLE001
+        xneq.append("format-protocol:" + type(e).__name__)
     try:
         res["eq_twin"] = bool(x == t) and bool(t == x)
         res["hash_twin"] = hash(x) == hash(t)
